@@ -768,6 +768,8 @@ struct Barrier {
     completed: u64,
     /// no new barrier before this instant (keeps a long starvation from becoming a PING flood)
     rest_until: Option<Instant>,
+    /// our connection send window when the barrier started: any WINDOW_UPDATE on stream 0 cancels it
+    credit_at_start: i64,
 }
 
 impl Barrier {
@@ -789,6 +791,7 @@ impl Barrier {
             self.active = true;
             self.acked = 0;
             self.token += 1;
+            self.credit_at_start = c.conn_send_window;
             c.send_ping(false, self.token_bytes())?;
             return Ok(false);
         }
@@ -796,6 +799,13 @@ impl Barrier {
     }
     fn on_ping_ack<S: Transport>(&mut self, c: &mut H2Conn<S>, data: [u8; 8]) -> Result<(), H2Error> {
         if self.active && data == self.token_bytes() {
+            // events are handled in wire order: if connection credit came in before this answer,
+            // the starvation is over and this barrier must not count
+            if c.conn_send_window > self.credit_at_start {
+                self.active = false;
+                self.acked = 0;
+                return Ok(());
+            }
             self.acked += 1;
             if self.acked < 2 {
                 self.token += 1;
@@ -1231,7 +1241,11 @@ struct ConnOutcome {
     peer_iws: u32,
 }
 
-fn classify_stuck(x: &XState, bp: Option<&BackProg>, c: &H2Conn<tls::TlsClient>, back_h2c: bool, pad: usize) -> (String, String) {
+/// `all_consumed`: every octet uploaded on this client connection, on any stream, reached the
+/// backend; `all_delivered`: every octet the backend sent on its connection reached this client.
+/// A connection window is shared by the streams: while other streams' octets are still inside
+/// sozu it is legitimately in use, and a transfer blocked by it alone is not judged on its own.
+fn classify_stuck(x: &XState, bp: Option<&BackProg>, c: &H2Conn<tls::TlsClient>, back_h2c: bool, pad: usize, all_consumed: bool, all_delivered: bool) -> (String, String) {
     let Some(bp) = bp else {
         return ("no_backend_stream".to_owned(), format!("transfer {} never reached the backend", x.id));
     };
@@ -1248,6 +1262,11 @@ fn classify_stuck(x: &XState, bp: Option<&BackProg>, c: &H2Conn<tls::TlsClient>,
         }
         if x.up_sent < x.up {
             let credit = c.send_credit(x.sid) - pad as i64;
+            let stream_credit = s.map(|s| s.send_window).unwrap_or(0) - pad as i64;
+            if credit <= 0 && stream_credit > 0 && !all_consumed {
+                return ("shared_window_in_use".to_owned(), format!(
+                    "upload of transfer {}: blocked by the connection window ({}) while octets of other streams are still inside sozu", x.id, c.conn_send_window));
+            }
             if credit <= 0 {
                 return ("own_window_front".to_owned(), format!(
                     "upload of transfer {}: all {uc} octets sent so far reached the backend, sozu's windows towards the client stay closed (stream {} connection {})",
@@ -1267,6 +1286,10 @@ fn classify_stuck(x: &XState, bp: Option<&BackProg>, c: &H2Conn<tls::TlsClient>,
         return ("harness_front_credit".to_owned(), format!("client windows {sw} / {cw} with {} octets held by sozu", db - dc));
     }
     if db < x.down as u64 {
+        if back_h2c && bp.send_credit <= 0 && bp.stream_credit > 0 && !all_delivered {
+            return ("shared_window_in_use".to_owned(), format!(
+                "download of transfer {}: the backend is blocked by sozu's connection window ({}) while octets of other streams are still inside sozu", x.id, bp.conn_credit));
+        }
         if back_h2c && bp.send_credit <= 0 {
             return ("own_window_back".to_owned(), format!(
                 "download of transfer {}: all {db} octets the backend could send reached the client, sozu's windows towards the backend stay closed (credit {})",
@@ -1758,6 +1781,8 @@ fn client_loop(
         }
         if last_progress.elapsed() > watchdog {
             let prog = shared.prog.lock().unwrap();
+            let all_consumed = xs.iter().filter(|y| y.sid != 0 && y.up_sent > 0).all(|y| prog.get(&y.id).is_some_and(|b| b.up_recv == y.up_sent as u64));
+            let all_delivered = xs.iter().filter(|y| y.sid != 0).all(|y| prog.get(&y.id).is_none_or(|b| b.down_sent == y.down_recv as u64));
             let mut best: Option<(String, String)> = None;
             for (i, x) in xs.iter().enumerate() {
                 if x.sid == 0 || x.done || x.failed.is_some() {
@@ -1768,8 +1793,8 @@ fn client_loop(
                     continue;
                 }
                 let pad = plan.xfers[i].pad.map(|p| p as usize + 1).unwrap_or(0);
-                let cls = classify_stuck(x, prog.get(&x.id), c, back_h2c, pad);
-                let decisive = !cls.0.starts_with("harness") && cls.0 != "no_backend_stream";
+                let cls = classify_stuck(x, prog.get(&x.id), c, back_h2c, pad, all_consumed, all_delivered);
+                let decisive = !cls.0.starts_with("harness") && cls.0 != "no_backend_stream" && cls.0 != "shared_window_in_use";
                 if decisive {
                     best = Some(cls);
                     break;
@@ -2502,6 +2527,7 @@ fn repro_zero(rep: &mut Report) {
     backend.stop();
     rep.obs("repro.worker_panics", panics.len() as u64);
 }
+
 
 pub fn run(ctx: &Ctx) -> Report {
     let mut rep = Report::new(
